@@ -90,6 +90,7 @@ type crashParser struct {
 	markfd  int
 	fds     map[int]*crashFd
 	pending map[string]string
+	closing map[string]*crashFd // close() entered and not yet reported as finished, per thread
 	events  []*crashEvent
 	seq     int
 	line    int
@@ -97,7 +98,7 @@ type crashParser struct {
 }
 
 func newCrashParser(root, cwd string, markfd int) *crashParser {
-	return &crashParser{root: filepath.Clean(root), cwd: cwd, markfd: markfd, fds: map[int]*crashFd{}, pending: map[string]string{}, syscall: map[string]int{}}
+	return &crashParser{root: filepath.Clean(root), cwd: cwd, markfd: markfd, fds: map[int]*crashFd{}, pending: map[string]string{}, closing: map[string]*crashFd{}, syscall: map[string]int{}}
 }
 
 func (p *crashParser) rel(abs string) (string, bool) {
@@ -220,7 +221,18 @@ func (p *crashParser) feed(raw string) error {
 		return nil
 	}
 	if strings.HasSuffix(rest, "<unfinished ...>") {
-		p.pending[tid] = strings.TrimSuffix(rest, "<unfinished ...>")
+		head := strings.TrimSuffix(rest, "<unfinished ...>")
+		p.pending[tid] = head
+		// a descriptor is free for reuse as soon as close() is entered: another thread may get the same number from
+		// an openat that completes before this close is reported as finished
+		if strings.HasPrefix(head, "close(") {
+			if fd, err := strconv.Atoi(strings.TrimSpace(strings.TrimRight(head[len("close("):], " )"))); err == nil {
+				if info, ok := p.fds[fd]; ok {
+					delete(p.fds, fd)
+					p.closing[tid] = info
+				}
+			}
+		}
 		return nil
 	}
 	if strings.HasPrefix(rest, "<... ") {
@@ -234,6 +246,12 @@ func (p *crashParser) feed(raw string) error {
 		}
 		delete(p.pending, tid)
 		rest = head + rest[k+len(" resumed>"):]
+		if info, ok := p.closing[tid]; ok && strings.HasPrefix(head, "close(") {
+			delete(p.closing, tid)
+			rel, _ := p.rel(info.path)
+			p.emit(&crashEvent{Kind: "close", Path: rel, WrFile: info.write})
+			return nil
+		}
 	}
 	return p.syscallLine(rest)
 }
@@ -244,15 +262,19 @@ func (p *crashParser) syscallLine(s string) error {
 		return nil
 	}
 	name := s[:par]
-	eq := strings.LastIndex(s, ") = ")
-	if eq < 0 {
+	eq := strings.LastIndex(s, " = ")
+	close := -1
+	if eq >= 0 {
+		close = len(strings.TrimRight(s[:eq], " ")) - 1
+	}
+	if eq < 0 || close < par || s[close] != ')' {
 		if strings.Contains(s, "exit") {
 			return nil
 		}
 		return fmt.Errorf("line %d: no result in %.80q", p.line, s)
 	}
-	argStr := strings.TrimRight(s[par+1:eq], " ")
-	retStr := strings.TrimSpace(s[eq+4:])
+	argStr := strings.TrimRight(s[par+1:close], " ")
+	retStr := strings.TrimSpace(s[eq+3:])
 	if f := strings.Fields(retStr); len(f) > 0 {
 		retStr = f[0]
 	}
@@ -537,6 +559,7 @@ type crashTraced struct {
 	ExitCode int
 	Syscalls map[string]int
 	TraceLen int
+	Pending  int    // system calls that were still unfinished when the process ended (their outcome is unknown)
 	LogPath  string // kept only when keepLog
 }
 
@@ -598,9 +621,7 @@ func crashTraceRun(root string, maxStr int, timeout time.Duration, keepLog strin
 	if perr != nil {
 		return nil, fmt.Errorf("trace parser: %w", perr)
 	}
-	if len(p.pending) != 0 && t.ExitCode == 0 {
-		return nil, fmt.Errorf("trace parser: %d unfinished system calls at the end of the log", len(p.pending))
-	}
-	t.Events, t.Syscalls = p.events, p.syscall
+	// system calls still unfinished when the process exits (another thread called exit_group) are dropped
+	t.Events, t.Syscalls, t.Pending = p.events, p.syscall, len(p.pending)
 	return t, nil
 }
